@@ -641,8 +641,38 @@ func ruleR1_5(w *World, r *Report) {
 		key := "(*solver.Solver).Solve snapshots the model"
 		var bad []string
 		stores := storesToField(solve, "solver.Solver", "lastModel")
-		if len(stores) == 0 {
+		// the snapshot may be taken by a helper called under status == Sat: then the helper must allocate and copy
+		// unconditionally, and the call is what has to sit under the Sat test
+		type site struct {
+			st *ssa.Store
+			at ssa.Instruction // where, in Solve, the snapshot happens (the store itself or the helper call)
+			in *ssa.Function
+		}
+		var sites []site
+		for _, st := range stores {
+			sites = append(sites, site{st, st, solve})
+		}
+		for _, ci := range callsIn(solve) {
+			call, ok := ci.(*ssa.Call)
+			if !ok {
+				continue
+			}
+			for _, c := range w.Callees[call] {
+				for _, st := range storesToField(c, "solver.Solver", "lastModel") {
+					if st.Block() == c.Blocks[0] || alwaysExecutedWith(st, c.Blocks[0].Instrs[0]) {
+						sites = append(sites, site{st, call, c})
+					}
+				}
+			}
+		}
+		if len(sites) == 0 {
 			bad = append(bad, "Solve never records the model it found: Model() returns a previous or no model")
+		}
+		stores = nil
+		atOf := map[*ssa.Store]ssa.Instruction{}
+		for _, s := range sites {
+			stores = append(stores, s.st)
+			atOf[s.st] = s.at
 		}
 		for _, st := range stores {
 			mk, ok := st.Val.(*ssa.MakeSlice)
@@ -663,7 +693,8 @@ func ruleR1_5(w *World, r *Report) {
 			}
 			// under status == Sat
 			under := false
-			for _, ec := range dominatingConds(st.Block()) {
+			at := atOf[st]
+			for _, ec := range dominatingConds(at.Block()) {
 				if k, eq, ok := statusTest(ec.Cond); ok && k == sat && eq == ec.True {
 					under = true
 				}
@@ -672,13 +703,13 @@ func ruleR1_5(w *World, r *Report) {
 				bad = append(bad, "the snapshot at "+w.InstrPos(st)+" is not taken under status == Sat")
 			}
 			// ... and unconditionally so: every path through the Sat branch allocates a new snapshot
-			for _, ec := range dominatingConds(st.Block()) {
+			for _, ec := range dominatingConds(at.Block()) {
 				if k, eq, ok := statusTest(ec.Cond); ok && k == sat && eq == ec.True {
 					succ := ec.If.Block().Succs[0]
 					if !ec.True {
 						succ = ec.If.Block().Succs[1]
 					}
-					if !alwaysExecutedWith(st, succ.Instrs[0]) && succ != st.Block() {
+					if !alwaysExecutedWith(at, succ.Instrs[0]) && succ != at.Block() {
 						bad = append(bad, "the snapshot is re-allocated only on some paths of the Sat branch (at "+w.InstrPos(st)+"): a snapshot of a previous answer, possibly with fewer variables, is reused")
 					}
 				}
